@@ -381,6 +381,8 @@ pub fn log_lengths(thorough: bool) -> Sweep {
             let mut fails = Vec::new();
             for plan in &chunk {
                 prov::initialize_from_msgpack_bytes(vec![0xc0]);
+                // (a wild copy can take the process down: say first what is about to be logged)
+                eprintln!("log sweep: messages (length, pattern) {:?}", plan);
                 let mut all: Vec<u8> = Vec::new();
                 for &(l, seed) in plan {
                     let m = crate::util::msg_bytes(l, seed);
